@@ -730,6 +730,7 @@ class Worker:
         kind, key = arg[0], arg[1]
         rkey = self.real_key(kind, key)
         pv = obj.parameter_defaults
+        orig_before = [self.ab.vid(v) for v in orig_obj.parameter_defaults.values()]
         res = {"ok": 1, "val": 0}
         try:
             if op == "ParamGet":
@@ -746,7 +747,8 @@ class Worker:
         jkey = dict(key) if kind == "symbol" else key
         rec = {"op": op, "kind": kind, "pre_ref": pre_ref, "res": res, "views": views,
                "pkeys": [self.ab.sym(k) for k in pv], "orig_items": [self.ab.vid(v) for v in orig_obj.parameter_defaults.values()],
-               "orig_keys": [self.ab.sym(k) for k in orig_obj.parameter_defaults]}
+               "orig_keys": [self.ab.sym(k) for k in orig_obj.parameter_defaults],
+               "orig_before": orig_before, "is_orig": 1 if obj is orig_obj else 0}
         rec["key_" + kind] = jkey
         if op == "ParamSet":
             rec["value"] = arg[2]
